@@ -27,8 +27,15 @@ class Tracker:
         self.scripts = {}     # do-file name -> dict
         self.owner = {}       # name -> 'user' | 'redo'
         self.files = {}       # name -> tokens currently on disk (from the real digest)
+        self.ver = {}         # name -> counter bumped by every user write/remove and every script run
+        self.memo = {}        # target -> what it saw at its last successful build
+        self.last_failed = set()
+
+    def bump(self, n):
+        self.ver[n] = self.ver.get(n, 0) + 1
 
     def apply_edit(self, t):
+        self.bump(t[1])
         if t[0] == "W":
             self.user[t[1]] = lst(t[2])
             self.owner[t[1]] = "user"
@@ -113,6 +120,38 @@ class Tracker:
         return seen
 
 
+def snapshot_for(tr, t, rule):
+    sc = tr.scripts[rule]
+    return {"rule": rule, "rule_ver": tr.ver.get(rule, 0),
+            "deps": {d: (tr.ver.get(d, 0), tuple(tr.files.get(d, ["<absent>"]))) for d in sc["deps"]},
+            "ifc": list(sc["ifc"]), "always": sc["always"]}
+
+
+def reasons_to_run(tr, t, before_files, stamped):
+    """Why a redo-ifchange may legitimately have run t's script (evaluated with
+    end-of-command versions).  Empty list = over-build."""
+    why = []
+    m = tr.memo.get(t)
+    if m is None:
+        return ["never built successfully"]
+    if t in tr.last_failed:
+        why.append("failed last time")
+    if t not in before_files:
+        why.append("file was missing")
+    rule = tr.rule_for(t)
+    if rule != m["rule"] or tr.ver.get(rule, 0) != m["rule_ver"]:
+        why.append("its .do changed")
+    if m["always"]:
+        why.append("redo-always")
+    for w in m["ifc"]:
+        if tr.exists(w) or w in before_files:
+            why.append("ifcreate path exists")
+    for d, (v, content) in m["deps"].items():
+        if tr.ver.get(d, 0) != v or d in tr.last_failed_now:
+            why.append("dependency %s changed" % d)
+    return why
+
+
 def check_history(line, real, want):
     """want: set of oracle names. Returns list of failures (dicts)."""
     steps = [t for t in e2e.parse_history(line) if t[0] != "P"]
@@ -134,17 +173,60 @@ def check_history(line, real, want):
             continue
         # a command
         user_files_before = {n: list(v) for n, v in tr.files.items() if tr.owner.get(n) == "user"}
+        tr.prev_files = dict(tr.files)
         tr.apply_digest(digest)
         if t[1] in ("redo", "ifchange"):
             ts = lst(t[3])
             rc = int(res.split("=")[1]) if res.startswith("rc=") else None
             trace = [e.split(":")[1] for e in detail["trace"]]
+            before_files = dict(user_files_before)
+            before_files.update({n: v for n, v in getattr(tr, "prev_files", {}).items()})
             tr.apply_build(detail)
             dones = {}
             for kind, text in detail["records"]:
                 if kind == "done":
                     c, _, n = text.partition(" ")
                     dones[n] = int(c)
+            tr.last_failed_now = set(n for n, c in dones.items() if c != 0)
+            if not hasattr(tr, "prev_csum"):
+                tr.prev_csum = {}
+            for n in trace:
+                rl = tr.rule_for(n)
+                content = tuple(tr.files.get(n, ["<absent>"]))
+                if rl and tr.scripts[rl]["stamp"] and dones.get(n) == 0:
+                    if tr.prev_csum.get(n) != content:
+                        tr.bump(n)
+                        tr.prev_csum[n] = content
+                else:
+                    tr.bump(n)
+                    tr.prev_csum.pop(n, None)
+            # ---- C02 over-building: every script run by redo-ifchange needs a reason
+            if "reason" in want and not any("208" in x or "cyclic" in x.lower() for x in [detail.get("err", "")]):
+                stamped = set()
+                for n in set(trace) | set(tr.memo):
+                    rl = tr.rule_for(n)
+                    if rl and tr.scripts[rl]["stamp"]:
+                        stamped.add(n)
+                forced = set(ts) if t[1] == "redo" else set()
+                for n in dict.fromkeys(trace):
+                    if n in forced:
+                        continue
+                    why = reasons_to_run(tr, n, before_files, stamped)
+                    counted["reason_checked"] = counted.get("reason_checked", 0) + 1
+                    if not why:
+                        fails.append({"oracle": "redo-ifchange ran a script although none of its inputs changed (over-build)", "step": i,
+                                      "cmd": " ".join(t), "target": n, "trace": trace, "memo": str(tr.memo.get(n))})
+            # refresh memos of what was built successfully, and the failure set
+            for n in dict.fromkeys(trace):
+                rl = tr.rule_for(n)
+                if dones.get(n) == 0 and rl:
+                    tr.memo[n] = snapshot_for(tr, n, rl)
+                    tr.last_failed.discard(n)
+                elif n in dones and dones[n] != 0:
+                    tr.last_failed.add(n)
+                    tr.memo.setdefault(n, None)
+                    if tr.memo[n] is None:
+                        del tr.memo[n]
             # ---- once per command
             if "once" in want and t[1] == "ifchange":
                 for n in set(trace):
